@@ -260,6 +260,9 @@ func (t *Transport) getConn(addr string) (pc *persistConn, err error) {
 			return
 		}
 		pc.mu.Unlock()
+		// Being handed out is a use: without the stamp a housekeeping pass that
+		// runs before the call registers may retire the connection under it.
+		pc.lastTime = t.now
 		return
 	}
 	if cq, ok := t.idleConns[addr]; ok && cq.Length() > 0 {
